@@ -1,7 +1,8 @@
 (* C14 — operations never modify their inputs; copies share no mutable state.  Property theorems only. *)
-From Coq Require Import Arith List Bool.
-From RV Require Import Store.Store Store.Ops Proofs.StoreProofs.
+From Coq Require Import Arith NArith List Bool String.
+From RV Require Import Generated.Tables Store.Store Store.Ops Store.Effects Store.EffectsInline Proofs.StoreProofs.
 Import ListNotations.
+Import Tables.effects.
 
 (* Soundness of the purity analysis, for EVERY program over alloc / alias / write and any number of arguments:
    a program that only writes to objects it allocated itself leaves every argument unchanged ... *)
@@ -50,4 +51,73 @@ Qed.
    predicts the argument change *)
 Example C14_write_then_alloc_changes_arg :
   pure [IWrite 0 [0]; IAlloc 1 [0]] = false /\ fst (outcome 1 [IWrite 0 [0]; IAlloc 1 [0]] [1]) = [true].
+Proof. vm_compute. split; reflexivity. Qed.
+
+(* ---------------------------------------------------------------------------------------------------------------
+   The static tie.  Generated/Tables.v (module effects) holds, for every listed operation and every reamber function
+   it reaches, the effect program harness/tables/effects.py read off the source of the tree under test.  Store/
+   EffectsInline.v inlines the callees (`flat_of`) and decides `effect_pureb` / `effect_ownedb` with a may-alias
+   analysis whose result is checked (Store/Effects.v: `closedb`).
+   --------------------------------------------------------------------------------------------------------------- *)
+
+(* Soundness for EVERY flat program and EVERY abstract state that passes the check: no run the program stands for
+   (any sequence, in any order and multiplicity, of instances of its steps) changes the version of an argument ... *)
+Theorem C14_flat_pure_sound : forall nargs p st,
+  flat_pureb nargs p st = true ->
+  forall t results, run_of p t -> fst (outcome nargs t results) = repeat false nargs.
+Proof. exact flat_pure_sound. Qed.
+
+(* ... and when no argument is reachable from the result in the checked state, the result is a fresh object *)
+Theorem C14_flat_owned_sound : forall nargs p st ret rd,
+  flat_ownedb nargs p st ret rd = true ->
+  forall t, run_of p t -> outcome nargs t [nv ret] = (repeat false nargs, [None]).
+Proof. exact flat_owned_sound. Qed.
+
+(* the two decisions on a program of the generated table mean exactly that *)
+Theorem C14_effect_pure_sound : forall f,
+  effect_pureb f = true ->
+  forall t results, run_of (flat_of c14_effects f) t -> fst (outcome (nargs_of f) t results) = repeat false (nargs_of f).
+Proof. exact effect_pure_sound. Qed.
+
+Theorem C14_effect_owned_sound : forall f,
+  effect_ownedb f = true ->
+  forall t, run_of (flat_of c14_effects f) t -> outcome (nargs_of f) t [nv (ef_ret f)] = (repeat false (nargs_of f), [None]).
+Proof. exact effect_owned_sound. Qed.
+
+(* operations applied one after another: a pure program keeps the run invariant from any state that satisfies it *)
+Theorem C14_effect_sequence : forall nargs p st,
+  flat_pureb nargs p st = true ->
+  forall t e s, run_of p t -> EInv nargs st e s -> EInv nargs st (fst (run e s t)) (snd (run e s t)).
+Proof. exact flat_pure_sound_from. Qed.
+
+(* OBLIGATIONS re-checked on every run against the table generated from the source that is there now:
+   every listed operation, and every protocol hook Python calls implicitly for them, is pure ... *)
+Theorem C14_listed_ops_pure : forallb effect_pureb (filter obliged c14_effects) = true.
+Proof. vm_compute. reflexivity. Qed.
+
+(* ... and every operation documented as returning a copy returns an object from which no argument is reachable *)
+Theorem C14_copy_ops_owned : forallb effect_ownedb (filter documented_copy c14_effects) = true.
+Proof. vm_compute. reflexivity. Qed.
+
+(* the runner's verdict table is the analysis *)
+Theorem C14_verdicts_are_analysis : effect_verdicts = map (analyse c14_effects) c14_effects.
+Proof. exact effect_verdicts_are_analysis. Qed.
+
+(* non-vacuity: the table lists the operations, and the analysis refuses the shapes of the two defects C14 had:
+   a write into a frame loaded from the argument (sv_normalize before ca3025e) and a result that keeps a reference
+   into the argument (MapSet.rate with a shallow copy) *)
+Example C14_table_lists_operations :
+  existsb (fun f => String.eqb (ef_name f) "sv_normalize" && ef_listed f) c14_effects = true
+  /\ existsb (fun f => String.eqb (ef_name f) "MapSet.rate" && ef_copy f) c14_effects = true
+  /\ Nat.leb 50 (List.length (filter ef_listed c14_effects)) = true.
+Proof. vm_compute. repeat split; reflexivity. Qed.
+
+Example C14_analysis_refuses_arg_write :
+  let p := [FLoad 2 0; FWrite 2; FAlloc 3; FAlias 1 3; FReach 4 1] in
+  flat_pureb 1 p (solve 1 p) = false.
+Proof. vm_compute. reflexivity. Qed.
+
+Example C14_analysis_refuses_shared_result :
+  let p := [FAlloc 2; FLoad 3 0; FWrite 2; FHold 2 3; FAlias 1 2; FReach 4 1] in
+  flat_pureb 1 p (solve 1 p) = true /\ flat_ownedb 1 p (solve 1 p) 1 4 = false.
 Proof. vm_compute. split; reflexivity. Qed.
